@@ -1096,7 +1096,10 @@ def three_launches(ctx, cases=None):
         for key, what in three_monitors(case, o):
             ctx.monitor_fail(f"overlapping-launch:three:{key}", what, {"three": case})
     if errs == len(cases) and cases:
-        raise RuntimeError(f"no three-launch case could be run: {outs[0]['error']}")
+        # e.g. "L2 did not queue on the run lock": on a tree whose run lock does not exclude (seeded C10d) the family cannot be staged at all.
+        # That is not a harness failure of the whole check: the other families and the source obligations decide; the evidence says the family did not run.
+        ctx.count("three_launch_family", "unrunnable")
+        ctx.notes.append(f"three-launch family: no case could be staged ({outs[0]['error'][:120]}); the other families decide")
 
 
 def scheduler_launches(ctx):
